@@ -662,3 +662,33 @@ def pub_fields(item):
     item = re.sub(r'(struct\s+\w+(?:<[^>]*>)?\s*\{)(.*?)(\n\})', fix_named, item, flags=re.S)
     item = re.sub(r'(struct\s+\w+\s*\()(?!pub\b)', r'\1pub ', item)
     return item
+
+
+def d9_values_mut(f):
+    """D9: for V in M.values_mut() BODY  ->  iterate over the keys (iteration order of a HashMap is
+    unspecified anyway); BODY verbatim, must not mention M (checked)."""
+    n = 0
+    while True:
+        t = f.text
+        mask = code_mask(t)
+        m = None
+        for x in re.finditer(r'for (\w+) in ([\w.]+)\.values_mut\(\)\s*\{', t):
+            if mask[x.start()]:
+                m = x
+                break
+        if m is None:
+            break
+        bo = m.end() - 1
+        bc = match_brace(t, mask, bo)
+        body = t[bo + 1:bc]
+        if re.search(re.escape(m.group(2)) + r'\b', body):
+            f._lost('D9: loop body touches the map')
+        ind = re.search(r'[ \t]*$', t[:m.start()]).group(0)
+        new = ('let verif_keys = shim_keys(&%s);\n%sfor verif_k in verif_keys.iter() {\n%s    let %s = %s.get_mut(verif_k).unwrap();%s}'
+               % (m.group(2), ind, ind, m.group(1), m.group(2), body))
+        f.text = t[:m.start()] + new + t[bc + 1:]
+        n += 1
+    if n == 0:
+        f._lost('D9 values_mut loop')
+    f.log.rule('D9', f, '%d values_mut loop(s) -> key iteration' % n)
+    return f
